@@ -75,7 +75,8 @@ def read_set_report(c, info):
     al = {(e["tu"], e["member"]) for e in rules["allowed"]}
     fi = {(e["tu"], e["member"]): e["key"] for e in rules["findings"]}
     allacc = {(f, p_) for f in rd["tus"] for p_ in rd["accesses"][f]}
-    cross = [(f, p_) for f, p_ in sorted(allacc) if p_ not in per and tj.get(p_, {}).get("class") not in unr
+    restored = set(rules.get("restored_counters", {}))
+    cross = [(f, p_) for f, p_ in sorted(allacc) if p_ not in per and p_ not in restored and tj.get(p_, {}).get("class") not in unr
              and f not in extract_c05.owners_of(p_, rules, tj)]
     bad = [x for x in cross if x not in al and x not in fi]
     for f, p_ in bad[:5]:
@@ -275,7 +276,9 @@ class Search:
         (N changed or some particle's last_collision lies in that step)"""
         fd = self.first_divergence(cfg, path, k)
         if fd is None:
-            return None
+            # the divergence that brought us here does not reproduce when the very same case is run again:
+            # that IS the nondeterminism of C05-N6 (TRACE + collisions only; this function is not called otherwise)
+            return "C05-N6:trace-collision-nondeterministic"
         a, r, s_, tb, nb = fd
         collided = (a.N, r.N) != nb or any(sim.particles[i].last_collision >= tb for sim in (a, r) for i in range(sim.N))
         return "C05-N7:trace-collision-step-depends-on-transient-arrays" if collided else None
@@ -564,6 +567,42 @@ def _archive_one(self, cfg, k=7):
 
 
 Search.archive_one = _archive_one
+
+
+def _syncsave_one(self, cfg, path, k=7):
+    """"synchronise for output, then save" with keep_unsynchronized=1: the synchronised-and-saved original, and the
+    simulation restored from that save, must both continue bit-for-bit with an UNINTERRUPTED run that never
+    synchronised (compared after a final synchronisation of all three: t, dt, N, all particles incl. variational)"""
+    c, R, rb = self.c, self.R, self.rb
+    n = cfg["save_after"]
+    try:
+        u = build_sim(rb, cfg); advance(u, n)
+        a = build_sim(rb, cfg); advance(a, n)
+        a.synchronize()
+        r, _ = self.restore(a, path); attach(r, cfg)
+        advance(u, k); advance(a, k); advance(r, k)
+        for s_ in (u, a, r):
+            s_.synchronize()
+    except Exception:
+        self.hist["rejected_config"] = self.hist.get("rejected_config", 0) + 1
+        return
+    key = cfg_key(cfg)
+    c.count(("syncsave", key, path), nontrivial=True)
+    self.hist["syncsave_cases"] = self.hist.get("syncsave_cases", 0) + 1
+
+    def phys(sim):
+        return [(t, p) for t, p in R.persisted_view(sim) if R.names.get(t) in PHYS]
+    vu = phys(u)
+    for who, sim in (("the synchronised-and-saved original", a), ("the simulation restored (%s) from it" % path, r)):
+        d = R.first_difference(vu, phys(sim))
+        if d:
+            c.violation("syncsave:" + cfg["integrator"] + (":variational" if (cfg.get("variational") or cfg.get("megno")) else ""),
+                        "synchronize() with keep_unsynchronized=1 followed by a save changes the trajectory: %s does not continue bit-for-bit with the uninterrupted run (%d steps): %s, cfg %s" % (who, k, d, key),
+                        {"cfg": cfg, "path": path, "steps": k, "difference": d})
+            return
+
+
+Search.syncsave_one = _syncsave_one
 
 
 def correspondence(c, exe, rb, info, R, cfgs):
@@ -967,6 +1006,8 @@ def run_cases(c, S, cases, nproc=8, chunk=12, budget=45):
             kind = case[3] if len(case) > 3 else "one"
             if kind == "twin":
                 W.twin_one(cfg, path, k)
+            elif kind == "syncsave":
+                W.syncsave_one(cfg, path, k)
             elif kind == "archive":
                 W.archive_one(cfg, k)
             else:
@@ -1104,6 +1145,21 @@ def history_cases(c, cfgs):
             out.append(({"integrator": integ, "o": o, "system": system, "save_after": 0}, "archive", 7, "archive"))
             if c.thorough:
                 out.append(({"integrator": integ, "o": o, "system": system, "save_after": 0, "testparticles": 1}, "archive", 11, "archive"))
+    # "synchronise for output, then save" with keep_unsynchronized=1 (with non-zero variational particles, MEGNO, test particles)
+    paths4 = ["buffer", "file", "copy", "pickle"]
+    i = 0
+    for o in ({"safe_mode": 0, "keep_unsynchronized": 1}, {"safe_mode": 0, "keep_unsynchronized": 1, "coordinates": "democraticheliocentric"},
+              {"safe_mode": 0, "keep_unsynchronized": 1, "coordinates": "whds"}, {"safe_mode": 0, "keep_unsynchronized": 1, "corrector": 11},
+              {"safe_mode": 0, "keep_unsynchronized": 1, "kernel": "lazy"}):
+        for extra in ({}, {"variational": 1}, {"variational": 2}, {"megno": 1}, {"testparticles": 1}, {"testparticles": 2, "variational": 1}):
+            if extra.get("variational") == 2 and (o.get("kernel") or o.get("coordinates")):
+                continue
+            for sa in ((1, 4) if c.thorough else (3,)):
+                cfg = dict({"integrator": "whfast", "o": o, "system": "planets", "save_after": sa}, **extra)
+                out.append((cfg, paths4[i % 4], 7, "syncsave")); i += 1
+    for o in ({"safe_mode": 0, "keep_unsynchronized": 1}, {"safe_mode": 0, "keep_unsynchronized": 1, "type": "cl4"}):
+        for extra in ({}, {"testparticles": 1}):
+            out.append((dict({"integrator": "saba", "o": o, "system": "planets", "save_after": 3}, **extra), paths4[i % 4], 7, "syncsave")); i += 1
     return out
 
 
@@ -1154,7 +1210,8 @@ def run(c):
     # may cut the tail of the list on a loaded machine: histogram.cases_skipped_wall_budget)
     hc = history_cases(c, cfgs)
     nlat = len(cfgs) * (2 if c.thorough else 1)
-    cases = [x for x in hc if x[3] == "archive"] + cases[:nlat] + [x for x in hc if x[3] != "archive"] + cases[nlat:]
+    first = ("archive", "syncsave")
+    cases = [x for x in hc if x[3] in first] + cases[:nlat] + [x for x in hc if x[3] not in first] + cases[nlat:]
     run_cases(c, S, cases)
     c.log("lattice done (%d cases)" % len(cases))
     member_sweep(c, S, info, R, rb)
